@@ -189,7 +189,7 @@ def c16(chk):
     chk.assumptions = ["formulas applied last in the harness: parity = exp(-qf/2)/sqrt(det), vacuum fidelity = 2^n exp(-qfI/2)/sqrt(detI), "
                        "Wigner = exp(-(r-mu)^T V^-1 (r-mu)/2)/(2 pi sqrt(det V)) (hbar = 2)", "Fock comparisons within the truncation slack"]
     plans = [(3, 1, "q", "e3", 2, [("gaussian", None), ("bosonic", None)]), (2, 1, "q", "e2", 2, [("fock", 12), ("fockmixed", 10)]),
-             (3, 0, "q", "p3", 2, [("fock", 10)]), (3, 0, "q", "x3", 2, [("gaussian", None), ("bosonic", None), ("fock", 10)]),
+             (3, 0, "q", "p3", 2, [("fock", 10), ("gaussian", None), ("bosonic", None)]), (3, 0, "q", "x3", 2, [("gaussian", None), ("bosonic", None), ("fock", 10)]),
              (3, 0, "q", "e3", 3, [("gaussian", None), ("bosonic", None), ("fock", 10), ("fockmixed", 8)])]
     if tier != "quick":
         plans = [(3, 2, "d", "e3", 3, [("gaussian", None), ("bosonic", None)]), (3, 1, "q", "e3", 3, [("gaussian", None), ("bosonic", None), ("fock", 9)]),
